@@ -1,1 +1,67 @@
-// harnesses for num (included into loom under cfg(loom_verif))
+// crate::rt::num::verif -- C12: the u64 encoding of every atomic value type.
+#![allow(dead_code, unused_imports)]
+
+use super::*;
+use crate::rt::verif::vharness;
+#[cfg(not(kani))]
+use crate::rt::verif::kani_shim as kani;
+
+macro_rules! roundtrip {
+    ($name:ident, $t:ty) => {
+        vharness! {
+            /// @prop C12 @tier quick @mode full @funcs Numeric::into_u64,Numeric::from_u64 @bounds every value of the type (full width)
+            /// the u64 encoding round-trips every value; values that compare equal encode equal (compare_exchange compares decoded values).
+            fn $name() {
+                let v: $t = kani::any();
+                let w: $t = kani::any();
+                assert!(<$t as Numeric>::from_u64(v.into_u64()) == v);
+                assert!((v == w) == (<$t as Numeric>::from_u64(v.into_u64()) == <$t as Numeric>::from_u64(w.into_u64())));
+                kani::cover!(v != w, "distinct values");
+            }
+        }
+    };
+}
+
+//@H num_roundtrip_u8 @prop C12 @tier quick @mode full @funcs Numeric::into_u64,Numeric::from_u64 @bounds every u8 value (full width) :: the u64 encoding round-trips every u8; equal values encode equal
+//@H num_roundtrip_u16 @prop C12 @tier quick @mode full @funcs Numeric::into_u64,Numeric::from_u64 @bounds every u16 value (full width) :: the u64 encoding round-trips every u16; equal values encode equal
+//@H num_roundtrip_u32 @prop C12 @tier quick @mode full @funcs Numeric::into_u64,Numeric::from_u64 @bounds every u32 value (full width) :: the u64 encoding round-trips every u32; equal values encode equal
+//@H num_roundtrip_u64 @prop C12 @tier quick @mode full @funcs Numeric::into_u64,Numeric::from_u64 @bounds every u64 value (full width) :: the u64 encoding round-trips every u64; equal values encode equal
+//@H num_roundtrip_usize @prop C12 @tier quick @mode full @funcs Numeric::into_u64,Numeric::from_u64 @bounds every usize value (full width) :: the u64 encoding round-trips every usize; equal values encode equal
+//@H num_roundtrip_i8 @prop C12 @tier quick @mode full @funcs Numeric::into_u64,Numeric::from_u64 @bounds every i8 value (full width) :: the u64 encoding round-trips every i8; equal values encode equal
+//@H num_roundtrip_i16 @prop C12 @tier quick @mode full @funcs Numeric::into_u64,Numeric::from_u64 @bounds every i16 value (full width) :: the u64 encoding round-trips every i16; equal values encode equal
+//@H num_roundtrip_i32 @prop C12 @tier quick @mode full @funcs Numeric::into_u64,Numeric::from_u64 @bounds every i32 value (full width) :: the u64 encoding round-trips every i32; equal values encode equal
+//@H num_roundtrip_i64 @prop C12 @tier quick @mode full @funcs Numeric::into_u64,Numeric::from_u64 @bounds every i64 value (full width) :: the u64 encoding round-trips every i64; equal values encode equal
+//@H num_roundtrip_isize @prop C12 @tier quick @mode full @funcs Numeric::into_u64,Numeric::from_u64 @bounds every isize value (full width) :: the u64 encoding round-trips every isize; equal values encode equal
+roundtrip!(num_roundtrip_u8, u8);
+roundtrip!(num_roundtrip_u16, u16);
+roundtrip!(num_roundtrip_u32, u32);
+roundtrip!(num_roundtrip_u64, u64);
+roundtrip!(num_roundtrip_usize, usize);
+roundtrip!(num_roundtrip_i8, i8);
+roundtrip!(num_roundtrip_i16, i16);
+roundtrip!(num_roundtrip_i32, i32);
+roundtrip!(num_roundtrip_i64, i64);
+roundtrip!(num_roundtrip_isize, isize);
+
+vharness! {
+    /// @prop C12 @tier quick @mode full @funcs Numeric::into_u64,Numeric::from_u64 @bounds both bool values; every u64 as stored representation
+    /// bool encodes as 0/1 and round-trips.
+    fn num_roundtrip_bool() {
+        let v: bool = kani::any();
+        assert!(<bool as Numeric>::from_u64(v.into_u64()) == v);
+        assert!(v.into_u64() == v as u64);
+        kani::cover!(v, "true");
+    }
+}
+
+vharness! {
+    /// @prop C12 @tier quick @mode full @funcs Numeric::into_u64,Numeric::from_u64 @bounds every pointer-sized address
+    /// raw pointers round-trip through the u64 encoding (address preserved).
+    fn num_roundtrip_ptr() {
+        let a: usize = kani::any();
+        let p = a as *mut u8;
+        let q = <*mut u8 as Numeric>::from_u64(p.into_u64());
+        assert!(q as usize == a);
+        kani::cover!(a != 0, "non-null");
+    }
+}
